@@ -34,7 +34,7 @@ def judge(path):
 
 def run(tier, seed, replay):
     rep = vf.Report("C08", tier, seed)
-    rep.rule = ("fresh keys (RSA 2048; thorough also 3072/4096; P-256/384/521, secp256k1, Ed25519, Ed448, oct 1-512 bytes), private and public "
+    rep.rule = ("fresh keys (RSA 2048 and 2047 bits; thorough also 1024/2050/3072/4096; P-256/384/521, secp256k1, Ed25519, Ed448, oct 1-512 bytes), private and public "
                 "forms, JWK text written by the harness with optional alg/kid/use/key_ops (every subset of the eight ops plus unknown ones), "
                 "integers minimal or with 1-3 leading zero bytes, foreign and unknown extra members; the imported item's PEM is re-parsed with "
                 "OpenSSL and compared component by component with the original key, metadata with what the JWK states. distinct = distinct "
